@@ -30,8 +30,12 @@ RULES = {
     "(evaluate, simplify, free_symbols), each symbolic dimension goes through `dim.<method>(…)` - the branch for SymbolicDim neither "
     "hands the dimension on unchanged nor leaves the iteration before the call: a partial binding has to be substituted into the "
     "dimension now (the residual is what a later binding completes), a dimension that is passed through keeps its unbound form",
+    "R9": "a symbolic dimension keeps nothing of a call: outside __init__, a method of SymbolicDim stores in a field of `self` only what is "
+    "determined by the dimension itself (the lazily parsed expression of its own text) - never a parameter of the call or a value "
+    "computed from one: `self._eval_cache = (bindings, result)` keeps the caller's mapping object, which the caller goes on editing, "
+    "so the key of the memo changes with it and a later evaluate() with other bindings answers with the old result",
 }
-FLOORS = {"R1": 6, "R2": 3, "R3": 3, "R4": 6, "R5": 18, "R6": 2, "R7": 15, "R8": 3}
+FLOORS = {"R1": 6, "R2": 3, "R3": 3, "R4": 6, "R5": 18, "R6": 2, "R7": 15, "R8": 3, "R9": 1}
 EXPLANATION = (
     "Derives the printer-side vocabulary from the sympy constructors called in SymbolicDim's methods and the "
     "parser-side grammar (tiers, tokens, associativity, operator→SymPy form) from the recursive-descent parser's "
@@ -709,7 +713,59 @@ def rule_r8(ctx):
     ctx.require(n >= 3, f"only {n} per-dimension delegations found in Shape (evaluate, simplify, free_symbols expected)")
 
 
+def rule_r9(ctx):
+    k = ctx.repo.cls("onnx_ir._core:SymbolicDim")
+    n = 0
+    for f in list(k.methods.values()) + [g for pr in k.props.values() for g in pr.values()]:
+        if f.name in ("__init__", "__new__", "__setstate__") or isinstance(f.node, ast.Lambda) or not f.params:
+            continue
+        me, params = f.params[0], set(f.params[1:])
+        a = f.node.args
+        if a.vararg:
+            params.add(a.vararg.arg)
+        if a.kwarg:
+            params.add(a.kwarg.arg)
+
+        def depends_on_params(e, depth=0, seen=None) -> str | None:
+            seen = seen if seen is not None else set()
+            for x in ast.walk(e):
+                if isinstance(x, ast.Name) and isinstance(x.ctx, ast.Load):
+                    if x.id in params:
+                        return x.id
+                    if x.id != me and x.id not in seen and depth < 4:
+                        seen.add(x.id)
+                        for st in own_nodes(f.node):
+                            vals = []
+                            if isinstance(st, ast.Assign) and any(isinstance(t, ast.Name) and t.id == x.id for t in ast.walk(ast.Tuple(elts=st.targets))):
+                                vals.append(st.value)
+                            elif isinstance(st, (ast.AnnAssign, ast.AugAssign)) and isinstance(st.target, ast.Name) and st.target.id == x.id and getattr(st, "value", None) is not None:
+                                vals.append(st.value)
+                            elif isinstance(st, ast.NamedExpr) and st.target.id == x.id:
+                                vals.append(st.value)
+                            elif isinstance(st, ast.For) and any(isinstance(t, ast.Name) and t.id == x.id for t in ast.walk(st.target)):
+                                vals.append(st.iter)
+                            for v in vals:
+                                hit = depends_on_params(v, depth + 1, seen)
+                                if hit:
+                                    return hit
+            return None
+
+        for st in own_nodes(f.node):
+            tg = st.targets if isinstance(st, ast.Assign) else [st.target] if isinstance(st, (ast.AnnAssign, ast.AugAssign)) else []
+            for t in tg:
+                if isinstance(t, ast.Attribute) and norm(t.value) == me and getattr(st, "value", None) is not None:
+                    n += 1
+                    hit = depends_on_params(st.value)
+                    ctx.check("R9", f"{f.local}: `{norm(t)}` is stored from the dimension's own state only", hit is None, f, st,
+                              f"`{norm(st)[:80]}` keeps, on the dimension, something that comes from the parameter `{hit}` of this call: a later call answers from what an earlier "
+                              "caller passed in (and a stored mapping keeps changing with its owner), so evaluation is no longer a function of the dimension and the bindings given",
+                              how="right-hand sides of `self.<field> = …` outside __init__, through the locals they name, mention no parameter of the method",
+                              construct=f"{f.name} stores a parameter-derived value in {t.attr}")
+    ctx.require(n >= 1, "no field store outside __init__ found in SymbolicDim (the lazy expression cache was expected)")
+
+
 def run(ctx):
+    rule_r9(ctx)
     rule_r8(ctx)
     rule_r7(ctx)
     rule_r6(ctx)
